@@ -62,6 +62,7 @@ func (r *router) initCache(cfg *CacheConfig) (*cacheCtl, error) {
 	if len(cfg.Redis) > 0 {
 		redisCache, err := cache.NewRedisCache(cfg.Redis, r.subLogger("redis_cache"))
 		if err != nil {
+			c.Close() // the memory cache may have been started
 			return nil, fmt.Errorf("failed to init redis cache, %w", err)
 		}
 		c.redis = redisCache
